@@ -139,6 +139,19 @@ Proof.
   rewrite F. reflexivity.
 Qed.
 
+(* exact match wins: a member of the list is accepted whatever else it is a prefix of (no hypothesis on the list) *)
+Theorem eval_ENUM_exact_wins o vals v : In (py_str (o_str o) v) vals -> eval o (CEnum vals) v = ok.
+Proof. intro H. cbn [eval]. apply str_in_In in H. rewrite H. reflexivity. Qed.
+
+(* ENUM[ACT,ACTIVE,DONE]: "ACT" (member and proper prefix of ACTIVE) ok; "AC" ambiguous E006; "ACTI" unique prefix ok; "X" E005 *)
+Example enum_exact_over_prefix_ex :
+  let vals := [[65;67;84]; [65;67;84;73;86;69]; [68;79;78;69]] in
+  let o := mkorc [] None false false (fun _ => false) in
+  eval o (CEnum vals) (PA (AStr [65;67;84])) = ok /\ eval o (CEnum vals) (PA (AStr [65;67])) = fail s_E006
+  /\ eval o (CEnum vals) (PA (AStr [65;67;84;73])) = ok /\ eval o (CEnum vals) (PA (AStr [88])) = fail s_E005
+  /\ eval o (CEnum [[49]; [49;48]; [49;48;48]]) (PA (AInt 10)) = ok.
+Proof. vm_compute. repeat split. Qed.
+
 (* ---- TYPE ---- *)
 Ltac lit_neq := match goal with H : ?a = ?b |- _ => (vm_compute in H; discriminate H) end.
 
@@ -170,88 +183,124 @@ Theorem eval_TYPE_unknown o t v : assoc t cst_type_map = None -> eval o (CType t
 Proof. intro H. cbn [eval]. rewrite H. reflexivity. Qed.
 
 (* ---- RANGE ---- *)
-Lemma fl_ltb_le x y : fl_is_nan x = false -> fl_is_nan y = false -> (fl_ltb x y = false <-> fl_le y x).
+(* fl_leb IS Python's <= on exact numbers, nan included: no side condition *)
+Lemma fl_leb_le x y : fl_leb x y = true <-> fl_le x y.
 Proof.
-  destruct x as [p|a|], y as [q|b|]; cbn; try discriminate; intros _ _.
-  - rewrite negb_false_iff, Qle_bool_iff. split; [intro H; constructor; exact H|intro H; inversion H; assumption].
-  - destruct b; cbn; split; intro H; try discriminate; try (constructor; discriminate); inversion H; subst; congruence.
-  - destruct a; cbn; split; intro H; try discriminate; try (constructor; discriminate); inversion H; subst; congruence.
-  - destruct a, b; cbn; split; intro H; try discriminate; try (constructor; discriminate); inversion H; subst; congruence.
+  destruct x as [p|a|], y as [q|b|]; cbn.
+  - rewrite Qle_bool_iff. split; [intro H; constructor; exact H|intro H; inversion H; assumption].
+  - destruct b; cbn; split; intro H; try discriminate; try (constructor; discriminate); inversion H.
+  - split; [discriminate|intro H; inversion H; congruence].
+  - destruct a; cbn; split; intro H; try discriminate; try (constructor; discriminate); inversion H.
+  - destruct a, b; cbn; split; intro H; try discriminate; try (constructor; discriminate); inversion H.
+  - split; [discriminate|intro H; inversion H; congruence].
+  - split; [discriminate|intro H; inversion H; congruence].
+  - split; [discriminate|intro H; inversion H; congruence].
+  - split; [discriminate|intro H; inversion H; congruence].
 Qed.
 
-Lemma fl_le_not_nan x y : fl_le x y -> fl_is_nan x = false /\ fl_is_nan y = false.
-Proof. intro H; destruct H as [p q H|z Hz|z Hz]; cbn; split; try reflexivity; destruct z; try reflexivity; congruence. Qed.
+Lemma fl_le_not_nan x y : fl_le x y -> x <> FNan /\ y <> FNan.
+Proof. intro H; destruct H as [p q H|z Hz|z Hz]; split; try discriminate; assumption. Qed.
 
-Lemma to_float_reading ofl v x : is_bool v = false -> (to_float ofl v = Some x <-> numeric_reading ofl v x).
+Lemma is_bool_false v : is_bool v = false <-> forall b, v <> PA (ABool b).
+Proof.
+  split.
+  - intros H b ->. discriminate H.
+  - intro H. destruct v as [[|b|z|f r|s]|l|l|c tg]; try reflexivity. exfalso. exact (H b eq_refl).
+Qed.
+
+Lemma num_value_reading ofl v x : is_bool v = false -> (num_value ofl v = Some x <-> numeric_reading ofl v x).
 Proof.
   unfold numeric_reading. intro Hb.
-  destruct v as [[|b|z|f r|s]|l|l|c tg]; cbn [to_float]; cbn in Hb; try discriminate;
-    try (split; [discriminate|intros [(z' & H & _)|[(z' & H & _)|[(r' & H)|(s' & H & _)]]]; discriminate]).
-  - destruct (Z.abs z <=? two53)%Z eqn:E.
-    + apply Z.leb_le in E. split.
-      * intro H; inversion H; subst. left. exists z. auto.
-      * intros [(z' & H & _ & ->)|[(z' & H & Hz & _)|[(r' & H)|(s' & H & _)]]]; try discriminate; inversion H; subst; [reflexivity|lia].
-    + apply Z.leb_gt in E. split.
-      * intro H. right; left. exists z. auto.
-      * intros [(z' & H & Hz & _)|[(z' & H & _ & Ho)|[(r' & H)|(s' & H & _)]]]; try discriminate; inversion H; subst; [lia|try reflexivity; try assumption].
+  destruct v as [[|b|z|f r|s]|l|l|c tg]; cbn [num_value]; cbn in Hb; try discriminate;
+    try (split; [discriminate|intros [(z' & H & _)|[(r' & H)|(s' & H & _)]]; discriminate]).
   - split.
-    + intro H; inversion H; subst. right; right; left. exists r. reflexivity.
-    + intros [(z' & H & _)|[(z' & H & _)|[(r' & H)|(s' & H & _)]]]; try discriminate. inversion H; subst. reflexivity.
+    + intro H; inversion H; subst. left. exists z. auto.
+    + intros [(z' & H & ->)|[(r' & H)|(s' & H & _)]]; try discriminate. inversion H; subst. reflexivity.
   - split.
-    + intro H. right; right; right. exists s. auto.
-    + intros [(z' & H & _)|[(z' & H & _)|[(r' & H)|(s' & H & Ho)]]]; try discriminate. exact Ho.
+    + intro H; inversion H; subst. right; left. exists r. reflexivity.
+    + intros [(z' & H & _)|[(r' & H)|(s' & H & _)]]; try discriminate. inversion H; subst. reflexivity.
+  - split.
+    + intro H. right; right. exists s. auto.
+    + intros [(z' & H & _)|[(r' & H)|(s' & H & Ho)]]; try discriminate. exact Ho.
 Qed.
 
-(* the numeric reading of the value is not nan (and neither bound is) *)
-Definition range_nan_free (o : orc) (lo hi : fl) (v : pyval) : bool :=
-  negb (fl_is_nan lo) && negb (fl_is_nan hi) &&
-  match to_float (o_float o) v with Some x => negb (fl_is_nan x) | None => true end.
-
-Theorem eval_RANGE_spec o lo hi v :
-  range_nan_free o lo hi v = true ->
-  (valid (eval o (CRange lo hi) v) = true <-> spec_RANGE (o_float o) lo hi v).
-Proof.
-  unfold range_nan_free, spec_RANGE. intro Hnf.
-  apply andb_true_iff in Hnf as [Hnf Hx]. apply andb_true_iff in Hnf as [Hlo Hhi].
-  apply negb_true_iff in Hlo, Hhi. cbn [eval].
-  destruct (is_bool v) eqn:Eb.
-  - cbn. split; [discriminate|]. intros (x & Hr & _).
-    destruct v as [[|b|z|f r|s]|l|l|c tg]; cbn in Eb; try discriminate.
-    destruct Hr as [(z' & H & _)|[(z' & H & _)|[(r' & H)|(s' & H & _)]]]; discriminate.
-  - destruct (to_float (o_float o) v) as [x|] eqn:Ef.
-    + apply negb_true_iff in Hx.
-      destruct (fl_ltb x lo) eqn:E1; cbn [orb].
-      * cbn. split; [discriminate|]. intros (y & Hr & Hl & _).
-        apply (to_float_reading _ _ _ Eb) in Hr. rewrite Ef in Hr. inversion Hr; subst y.
-        apply (fl_ltb_le x lo Hx Hlo) in Hl. congruence.
-      * destruct (fl_ltb hi x) eqn:E2; cbn.
-        -- split; [discriminate|]. intros (y & Hr & _ & Hh).
-           apply (to_float_reading _ _ _ Eb) in Hr. rewrite Ef in Hr. inversion Hr; subst y.
-           apply (fl_ltb_le hi x Hhi Hx) in Hh. congruence.
-        -- split; [|reflexivity]. intros _. exists x. split; [apply to_float_reading; assumption|].
-           split; [apply (fl_ltb_le x lo Hx Hlo); exact E1|apply (fl_ltb_le hi x Hhi Hx); exact E2].
-    + cbn. split; [discriminate|]. intros (y & Hr & _).
-      apply (to_float_reading _ _ _ Eb) in Hr. congruence.
-Qed.
-
+(* the unrestricted statement: no hypothesis on nan, on the size of an int, or on the bounds *)
 Definition eval_RANGE_spec_full : Prop :=
   forall o lo hi v, valid (eval o (CRange lo hi) v) = true <-> spec_RANGE (o_float o) lo hi v.
 
-(* finding C08-range-nan: the string "nan" (float("nan") = nan) is accepted by RANGE[1,10] *)
-Definition orc_nan : orc := mkorc [] (Some FNan) false false (fun _ => false).
-Theorem eval_RANGE_spec_refuted :
-  exists o lo hi v, valid (eval o (CRange lo hi) v) = true /\ ~ spec_RANGE (o_float o) lo hi v.
+Theorem eval_RANGE_spec : eval_RANGE_spec_full.
 Proof.
-  exists orc_nan, (FFin (inject_Z 1)), (FFin (inject_Z 10)), (PA (AStr s_nan)).
-  split; [vm_compute; reflexivity|].
-  intros (x & Hr & Hl & _). destruct Hr as [(z & H & _)|[(z & H & _)|[(r & H)|(s & H & Ho)]]]; try discriminate.
-  cbn in Ho. inversion Ho; subst x. inversion Hl.
+  unfold eval_RANGE_spec_full, spec_RANGE. intros o lo hi v. cbn [eval].
+  destruct (is_bool v) eqn:Eb.
+  - cbn. split; [discriminate|]. intros [Hnb _]. apply is_bool_false in Hnb. congruence.
+  - pose proof (proj1 (is_bool_false v) Eb) as Hnb.
+    destruct (num_value (o_float o) v) as [x|] eqn:Ef.
+    + destruct (fl_leb lo x) eqn:E1; cbn [andb negb].
+      * destruct (fl_leb x hi) eqn:E2; cbn.
+        -- split; [|reflexivity]. intros _. split; [exact Hnb|]. exists x.
+           apply fl_leb_le in E1, E2. split; [apply num_value_reading; assumption|].
+           split; [exact (proj2 (fl_le_not_nan _ _ E1))|split; assumption].
+        -- split; [discriminate|]. intros (_ & y & Hr & _ & _ & Hh).
+           apply (num_value_reading _ _ _ Eb) in Hr. rewrite Ef in Hr. inversion Hr; subst y.
+           apply fl_leb_le in Hh. congruence.
+      * cbn. split; [discriminate|]. intros (_ & y & Hr & _ & Hl & _).
+        apply (num_value_reading _ _ _ Eb) in Hr. rewrite Ef in Hr. inversion Hr; subst y.
+        apply fl_leb_le in Hl. congruence.
+    + cbn. split; [discriminate|]. intros (_ & y & Hr & _).
+      apply (num_value_reading _ _ _ Eb) in Hr. congruence.
 Qed.
 
-Example range_nan_free_ex :
-  range_nan_free (mkorc [] (Some (FFin (11 # 2))) false false (fun _ => false)) (FFin (inject_Z 1)) (FFin (inject_Z 10)) (PA (AStr [53;46;53])) = true
-  /\ valid (eval (mkorc [] (Some (FFin (11 # 2))) false false (fun _ => false)) (CRange (FFin (inject_Z 1)) (FFin (inject_Z 10))) (PA (AStr [53;46;53]))) = true.
-Proof. vm_compute. split; reflexivity. Qed.
+(* every rejection of RANGE carries the single code E011 *)
+Theorem eval_RANGE_reject_code o lo hi v :
+  valid (eval o (CRange lo hi) v) = false -> eval o (CRange lo hi) v = fail s_E011.
+Proof.
+  destruct codes_pin as (_ & _ & _ & _ & _ & _ & _ & _ & _ & _ & C0 & C1 & C2 & _).
+  cbn [eval]. rewrite C0, C1, C2.
+  destruct (is_bool v); [reflexivity|]. destruct (num_value (o_float o) v) as [x|]; [|reflexivity].
+  destruct (negb (fl_leb lo x && fl_leb x hi)); [reflexivity|discriminate].
+Qed.
+
+(* a nan reading (float nan, or a string float() reads as nan) is in no range *)
+Theorem eval_RANGE_rejects_nan o lo hi v :
+  num_value (o_float o) v = Some FNan -> eval o (CRange lo hi) v = fail s_E011.
+Proof.
+  intro H. apply eval_RANGE_reject_code. cbn [eval]. destruct (is_bool v); [reflexivity|].
+  rewrite H. destruct lo as [p|a|]; reflexivity.
+Qed.
+
+(* integers are compared exactly with integer bounds, whatever their size (no float rounding, no overflow) *)
+Lemma Qle_bool_inject_Z a b : Qle_bool (inject_Z a) (inject_Z b) = (a <=? b)%Z.
+Proof. unfold Qle_bool, inject_Z. cbn [Qnum Qden]. rewrite !Z.mul_1_r. reflexivity. Qed.
+
+Theorem eval_RANGE_int_exact o lo hi z :
+  valid (eval o (CRange (FFin (inject_Z lo)) (FFin (inject_Z hi))) (PA (AInt z))) = ((lo <=? z)%Z && (z <=? hi)%Z).
+Proof.
+  cbn [eval is_bool num_value fl_leb]. rewrite !Qle_bool_inject_Z.
+  destruct ((lo <=? z)%Z && (z <=? hi)%Z); reflexivity.
+Qed.
+
+(* non-vacuity: RANGE accepts something -- "5.5" in [1,10], and 2^53+1 in [0,2^53+1] *)
+Definition orc_fl (f : option fl) : orc := mkorc [] f false false (fun _ => false).
+Example range_accepts_ex :
+  valid (eval (orc_fl (Some (FFin (11 # 2)))) (CRange (FFin (inject_Z 1)) (FFin (inject_Z 10))) (PA (AStr [53;46;53]))) = true
+  /\ spec_RANGE (Some (FFin (11 # 2))) (FFin (inject_Z 1)) (FFin (inject_Z 10)) (PA (AStr [53;46;53]))
+  /\ valid (eval (orc_fl None) (CRange (FFin (inject_Z 0)) (FFin (inject_Z 9007199254740993))) (PA (AInt 9007199254740993))) = true.
+Proof.
+  split; [vm_compute; reflexivity|]. split; [|vm_compute; reflexivity].
+  apply (eval_RANGE_spec (orc_fl (Some (FFin (11 # 2))))). vm_compute. reflexivity.
+Qed.
+
+(* regression examples for the three repaired defects (repo commit 8e26d46), by computation on the model:
+   (1) the string "nan" (oracle reading nan) and the float nan are rejected by RANGE[1,10];
+   (2) 2^53+1 is rejected by RANGE[0,2^53] (it used to be rounded to 2^53 before the bound test), 2^53 is accepted;
+   (3) 10^400 (above the double range; float() used to raise OverflowError) gets the verdict E011 from RANGE[1,10]. *)
+Example range_regression_ex :
+  eval (orc_fl (Some FNan)) (CRange (FFin (inject_Z 1)) (FFin (inject_Z 10))) (PA (AStr s_nan)) = fail s_E011
+  /\ eval (orc_fl None) (CRange (FFin (inject_Z 1)) (FFin (inject_Z 10))) (PA (AFloat FNan s_nan)) = fail s_E011
+  /\ eval (orc_fl None) (CRange (FFin (inject_Z 0)) (FFin (inject_Z 9007199254740992))) (PA (AInt 9007199254740993)) = fail s_E011
+  /\ eval (orc_fl None) (CRange (FFin (inject_Z 0)) (FFin (inject_Z 9007199254740992))) (PA (AInt 9007199254740992)) = ok
+  /\ eval (orc_fl None) (CRange (FFin (inject_Z 1)) (FFin (inject_Z 10))) (PA (AInt (10 ^ 400))) = fail s_E011.
+Proof. vm_compute. repeat split. Qed.
 
 (* ---- MIN/MAX_LENGTH ---- *)
 Lemma py_len_has_length v n : py_len v = Some n <-> has_length v n.
